@@ -100,6 +100,30 @@ def run_step(rep, prop, forms=None, harness_timeout=900, skip_groups=(), r=None)
                 o.detail = "CBMC: FAILURE of check '%s' at %s:%d in %s (harness %s)" % (fc["desc"], fc["file"], fc["line"], fc["func"], g)
             else:
                 o.status = DISCHARGED
+    # thorough tier: second pass with a symbolic code address for EVERY form (the quick tier places non-control-flow
+    # forms at PC_DEFAULT); a clause failing in either pass is failed
+    if rep.tier == "thorough" and not os.environ.get("KOGE29_ALL_SYM_PC") and not skip_groups:
+        os.environ["KOGE29_ALL_SYM_PC"] = "1"
+        try:
+            log2 = os.path.join(kani_run.CACHE, "logs", "%s-step-sympc.log" % prop)
+            r2 = kani_run.run_harnesses([KSTEP + g for g in groups], harness_timeout=1800, log_path=log2)
+        finally:
+            del os.environ["KOGE29_ALL_SYM_PC"]
+            kani_run.prepare()
+        rep.cmds.append("KOGE29_ALL_SYM_PC=1 (cd kani/crate && " + r2["cmd"] + ")")
+        rep.logs.append(log2)
+        for g in groups:
+            h2 = r2["harness"].get(g)
+            if h2 is None or h2["status"] not in ("SUCCESSFUL", "FAILED"):
+                rep.notes.append("symbolic-placement pass: harness %s did not complete (%s); its quick-placement result stands" % (g, h2["status"] if h2 else "no result"))
+                continue
+            for fc in h2["failed_checks"]:
+                d = fc["desc"]
+                if d.startswith("OBL:") and d[4:] in rep.obls and rep.obls[d[4:]].status != FAILED:
+                    o = rep.obls[d[4:]]
+                    o.status = FAILED
+                    o.detail = "fails with a symbolic code address (second pass): CBMC FAILURE of '%s' at %s:%d (harness %s)" % (d, fc["file"], fc["line"], g)
+        rep.notes.append("thorough: every form verified a second time with a symbolic even code address in on-chip RAM or DRAM")
     # the verifier ran into its limit on some group (typically after a source change): a bounded native comparison
     # of the same contract on the real code keeps a violation visible (labelled bounded; a clean result here
     # does NOT discharge anything - the obligations stay undetermined and the check stays inconclusive)
